@@ -584,7 +584,10 @@ class Recorder:
 # ------------------------------------------------------------------------------------------------
 # one survey
 # ------------------------------------------------------------------------------------------------
-def make_method(world: World, name: str, sensor_info=None):
+TRAVEL = 30          # minutes; an int, so `_get_travel_time` draws nothing
+
+
+def make_method(world: World, name: str, sensor_info=None, mobile=False):
     """a real method object of the right class without its scheduling collaborators; the sensor is
     built by the class's own `_initialize_sensor` from the (real, possibly grid-varied) sensor dict"""
     params = world.methods[name]
@@ -592,7 +595,10 @@ def make_method(world: World, name: str, sensor_info=None):
     mm = cls.__new__(cls)
     mm._name = name
     mm._weather = False
-    mm._deployment_type = pdc.Deployment_Types.STATIONARY   # no crew-time accounting in survey_site
+    # stationary: no crew-time accounting in survey_site; mobile: the three-way budget decision of
+    # survey_site decides whether the survey completes today or is left in progress
+    mm._deployment_type = pdc.Deployment_Types.MOBILE if mobile else pdc.Deployment_Types.STATIONARY
+    mm._travel_times = TRAVEL
     mm._reporting_delay = params[pdc.Method_Params.REPORTING_DELAY]
     mm._emissions_tagged_daily = 0
     mm._initialize_sensor(sensor_info if sensor_info is not None else params[pdc.Method_Params.SENSOR],
@@ -615,7 +621,30 @@ class SurveyResult:
     pass
 
 
-def run_survey(scene: Scene, mm, code, si, day, rng, model=True):
+def new_report(scene: Scene, si):
+    return SiteSurveyReport(site_id=scene.sites[si].get_id())
+
+
+def run_partial(scene: Scene, mm, report, si, day):
+    """one day of a multi-day survey that must NOT complete: the crew's remaining time is chosen from the
+    site's survey time (configuration) so that `survey_site` takes its "cannot finish, but can survey" branch.
+    Returns the Recorder (everything the sensor / tagging path did that day: nothing is expected) or None if
+    the remaining survey time is too short to be split."""
+    site = scene.sites[si]
+    s_time = site.get_method_survey_time(mm._name)
+    left = s_time - report.time_surveyed
+    if left < 2:
+        return None
+    crew = CrewDailyReport(crew_id=1, day_time_remaining=2 * TRAVEL + max(1, left // 2))
+    cur = scene.start + timedelta(days=day)
+    with Recorder(scene, snap=True) as rec:
+        mm.survey_site(crew=crew, survey_report=report, site_to_survey=site, weather=None, curr_date=cur)
+    rec.left_in_progress = bool(report.survey_in_progress and not report.survey_complete)
+    rec.report_state = (report.site_true_rate, report.site_measured_rate, report.survey_completion_date)
+    return rec
+
+
+def run_survey(scene: Scene, mm, code, si, day, rng, model=True, report=None):
     """runs the real survey; returns (model request line, implementation reply line, facts for the oracle).
     model=False (unsnapped / off-grid pass): nothing is altered or snapped, no protocol lines are built,
     only the facts for the oracle are returned"""
@@ -632,12 +661,14 @@ def run_survey(scene: Scene, mm, code, si, day, rng, model=True):
                            bool(getattr(em, "_tagged", False) or getattr(em, "_record", False)),
                            em._init_detect_by)
     cur = scene.start + timedelta(days=day)
-    report = SiteSurveyReport(site_id=site.get_id())
-    crew = CrewDailyReport(crew_id=1, day_time_remaining=480)
+    if report is None:
+        report = SiteSurveyReport(site_id=site.get_id())
+    # enough time to finish whatever is left of the site (mobile) / irrelevant (stationary)
+    crew = CrewDailyReport(crew_id=1, day_time_remaining=100000)
     with Recorder(scene, snap=model) as rec:
         mm.survey_site(crew=crew, survey_report=report, site_to_survey=site, weather=None, curr_date=cur)
     if not report.survey_complete:
-        raise RuntimeError("survey_site of a stationary method did not complete the survey")
+        raise RuntimeError("survey_site did not complete the survey although the crew had the time")
     mdl = mm._sensor._mdl
     if not model:
         res = SurveyResult()
